@@ -31,7 +31,21 @@ func (c *callCtx) source(r *SV, depth int) (byteSource, bool) {
 			return c.source(vc.unbox(st, r, r.Cands[0]), depth+1)
 		}
 		if !r.Exact {
-			vc.assume(implies(c.n.Reach, or(eq(r.C[0], bvLit(tidBits, 0)), app("bvuge", r.C[0], bvLit(tidBits, 0x8000)))))
+			// possible known dynamic types must themselves be identified by their payload ref (bytes.Reader)
+			alts := []string{eq(r.C[0], bvLit(tidBits, 0)), app("bvuge", r.C[0], bvLit(tidBits, 0x8000))}
+			for _, ct := range r.Cands {
+				if r.Guess {
+					break // a reader read from memory: of a type outside the repository (standing assumption)
+				}
+				if it, isI := r.T.Underlying().(*types.Interface); isI && !types.Implements(ct, it) {
+					continue // cannot be the dynamic type of a value of this static type
+				}
+				if ct.String() != "*bytes.Reader" {
+					return byteSource{}, false
+				}
+				alts = append(alts, eq(r.C[0], vc.eng.typeID(ct)))
+			}
+			vc.assume(implies(c.n.Reach, or(alts...)))
 			vc.note("standing: reader/writer values stored in objects are of types outside the repository (they obey the io contracts)")
 			if r.File {
 				return byteSource{kind: "file", ref: r.C[1]}, true
